@@ -163,7 +163,9 @@ class MoreFormats(Delimited):
         # BED12: columns 10, 11 are lists
         b12 = []
         for lists in ([(L(2), L(1))], [(L(1, 2), L(1, 1)), (L(2), L(1))], [(L(1, 1, 2), L(1, 2, 1))],
-                      [(L(1, 2, t=True), L(1, 1, t=True))], [(L(2, t=True), L(1, t=True)), (L(1, 1, t=True), L(1, 2, t=True))]):
+                      [(L(1, 2, t=True), L(1, 1, t=True))], [(L(2, t=True), L(1, t=True)), (L(1, 1, t=True), L(1, 2, t=True))],
+                      # the two styles MIXED in one file: a row with the trailing comma, a row without it (both orders, both columns differing)
+                      [(L(1, 2, t=True), L(1, 1)), (L(1, 1), L(2, 1, t=True))], [(L(2, 1), L(1, 1)), (L(1, t=True), L(1, t=True)), (L(1, 1), L(2, 2))]):
             rows, spec = [], {}
             for r, (a, b) in enumerate(lists):
                 rows.append([1 + r, 1, 2, 1, 1, 1, 1, 2, 1, 1, F.list_width(a), F.list_width(b)])
